@@ -1,7 +1,7 @@
 (* C12 proofs, part A: arithmetic, list helpers, ThrottleList invariant and its preservation by
    every ThrottleList method under the consumers' discipline. *)
 From Coq Require Import List NArith Bool Lia Permutation.
-From LTV.C12 Require Import ParamsGen.
+From LTV.C12 Require Import ParamsGen PolicyGen.
 From LTV.C12 Require Import Model.
 Import ListNotations.
 Local Open Scope N_scope.
@@ -273,26 +273,48 @@ Proof.
   destruct (r <=? lim); [|auto]. apply N.ltb_lt in Ha. apply N.leb_le in Hb. lia.
 Qed.
 
+(* side conditions on the PROBED policy/constants (coq/C12/PolicyGen.v); everything below is proved for
+   every policy table that passes this check, so the theorems keep covering a tree whose chunk-size
+   policy, initial chunk sizes or minimal tick interval changed within these conditions *)
+Definition probe_ok (p : N * (N * N)) : bool :=
+  (0 <? fst (snd p)) && (fst (snd p) <=? snd (snd p)) && (snd (snd p) <=? 65536).
 Definition params_ok : bool :=
-  forallb (fun p => (0 <? snd p) && (snd p <=? 16384)) Params.throttle_chunk_table &&
-  (0 <? Params.throttle_chunk_default) && (Params.throttle_chunk_default <=? 16384) &&
-  (Params.throttle_max_chunk_factor =? 4) &&
-  (Params.throttle_list_min_chunk_init =? 2048) && (Params.throttle_list_max_chunk_init =? 16384) &&
-  (Params.throttle_tick_min_interval_ms =? 90) && (Params.throttle_fraction_bits =? 16) &&
-  (Params.rate_limit_bytes_shift =? 28) && (Params.rate_limit_cur_shift =? 40).
+  forallb probe_ok Policy.chunk_probe &&
+  (0 <? Policy.list_min_init) && (Policy.list_min_init <=? Policy.list_max_init) && (Policy.list_max_init <=? 65536) &&
+  (Policy.tick_min_us <=? 1000000) && (Policy.fraction_bits =? 16) &&
+  (Policy.rate_bytes_shift =? 28) && (Policy.rate_cur_shift =? 40).
 Lemma params_ok_now : params_ok = true.
 Proof. vm_compute. reflexivity. Qed.
+
+Lemma assoc_rate_in r tab p : assoc_rate r tab = Some p -> In (r, p) tab.
+Proof.
+  induction tab as [|[r0 p0] tab IH]; cbn [assoc_rate]; [discriminate|].
+  destruct (N.eqb_spec r0 r) as [->|]; [intros E; injection E as ->; left; reflexivity|right; auto].
+Qed.
+
+Lemma fb_chunks r : 0 < fb_min_chunk r /\ fb_min_chunk r <= fb_max_chunk r /\ fb_max_chunk r <= cap.
+Proof.
+  assert (Hm : 0 < fb_min_chunk r /\ fb_min_chunk r <= 16384).
+  { unfold fb_min_chunk. destruct (_ && _) eqn:E; [|lia]. apply andb_prop in E as [A B].
+    apply N.ltb_lt in A. apply N.leb_le in B. lia. }
+  unfold fb_max_chunk, cap. destruct (_ && _) eqn:E; [|lia]. apply andb_prop in E as [A B].
+  apply N.leb_le in A, B. lia.
+Qed.
 
 Lemma calc_chunks r :
   0 < calc_min_chunk r /\ calc_min_chunk r <= calc_max_chunk r /\ calc_max_chunk r <= cap.
 Proof.
-  pose proof params_ok_now as P. unfold params_ok in P.
-  repeat (apply andb_prop in P as [P ?]).
-  assert (Hb : 0 < calc_min_chunk r /\ calc_min_chunk r <= 16384).
-  { unfold calc_min_chunk. apply chunk_lookup_bounds; auto; [apply N.ltb_lt|apply N.leb_le]; assumption. }
-  unfold calc_max_chunk.
-  match goal with H : (Params.throttle_max_chunk_factor =? 4) = true |- _ => apply N.eqb_eq in H; rewrite H end.
-  rewrite N.mod_small by (rewrite w32_val; lia). unfold cap. lia.
+  unfold calc_min_chunk, calc_max_chunk. destruct (assoc_rate r Policy.chunk_probe) as [p|] eqn:E; [|apply fb_chunks].
+  pose proof params_ok_now as P. unfold params_ok in P. do 7 (apply andb_prop in P as [P ?]).
+  rewrite forallb_forall in P. specialize (P _ (assoc_rate_in _ _ _ E)). unfold probe_ok in P. cbn [snd fst] in P.
+  apply andb_prop in P as [P C]. apply andb_prop in P as [A B].
+  apply N.ltb_lt in A. apply N.leb_le in B, C. unfold cap. lia.
+Qed.
+
+Lemma tick_min_le : Policy.tick_min_us <= 1000000.
+Proof.
+  pose proof params_ok_now as P. unfold params_ok in P. do 7 (apply andb_prop in P as [P ?]).
+  match goal with H : (Policy.tick_min_us <=? 1000000) = true |- _ => apply N.leb_le in H; exact H end.
 Qed.
 
 Lemma tl_init_inv : tl_inv tl_init.
